@@ -14,7 +14,7 @@ replay = _dfs.replay
 CLUSTER = {"brokers": [1, 2], "topics": {"t": {"0": 1}}}
 FETCH_ERRS = [3, 5, 6, 7]
 MENU = {"err": {"1": FETCH_ERRS, "2": [6, 7], "9": [14, 16], "3": [5]}, "silent": True, "drop": True, "refuse": True,
-        "timer_early": True, "proc_early": True, "app_early": True}
+        "timer_early": True, "proc_early": True, "app_early": True, "corrupt": [0, 1, 2]}
 MENU_LIGHT = {"err": {"1": [6, 7], "2": [6]}, "silent": True, "drop": True, "timer_early": True, "proc_early": True}
 
 LOGS = {
@@ -84,6 +84,18 @@ def extra_configs(tier):
     return out
 
 
+def stop_configs(tier):
+    """The application stops the consumer at any moment (processor busy, a reply parked behind it, fetch in flight)."""
+    out = []
+    for d, buf in ((1, 75), (2, 130)):
+        out.append({"cluster": CLUSTER, "discovery": False, "log": LOGS["plain6"], "magic": 0, "start": "earliest",
+                    "consumer": {"buffer_size": buf}, "processor": "async",
+                    "script": [["start"], ["stop", {"delivered": d}]],
+                    "menu": {"timer_early": True, "proc_early": True, "app_early": True, "err": {"1": [6]}},
+                    "timeout_ms": 2000})
+    return out
+
+
 RULE = ("real Consumer+KafkaClient, 2 brokers, one partition whose log is one of: 6 plain messages (null/empty keys "
         "and values), compaction gaps, base offset 1000, a gzip wrapper in the middle (fetched from its middle), "
         "gzip+snappy wrappers at base 1000, a compacted wrapper with inner gaps, a message larger than the fetch "
@@ -91,7 +103,8 @@ RULE = ("real Consumer+KafkaClient, 2 brokers, one partition whose log is one of
         "mid-wrapper), latest + later appends, committed with/without a stored offset}; processor sync or async "
         "(completed by an explicit event, so replies can arrive while processing); fetch buffer 130 bytes so a log "
         "needs several fetches and ends in partial messages.  Alphabet: correct reply, fetch/offset error codes "
-        "{3,5,6,7,14,16}, silent broker, drop, refused connection, timer before pending I/O, processor completion "
+        "{3,5,6,7,14,16}, a bit error in flight in the 1st/2nd/3rd message of a fetch answer, silent broker, drop, "
+        "refused connection, timer before pending I/O, processor completion "
         "before pending I/O, early application call.  Oracle: incremental monitor over the ground-truth log: every "
         "invocation carries exactly the next log entries (offset, key, value), never while the previous result is "
         "pending, at most one fetch outstanding, first fetch at the resolved start position, and at quiescence "
@@ -104,11 +117,13 @@ def run(tier, seed, only=None):
     if tier == "quick":
         plans = [("logs-starts-2dev", configs(tier, MENU), (1, 1, 2)),
                  ("logs-starts-3dev-light", configs(tier, MENU_LIGHT)[::3], (2, 1, 3)),
-                 ("policies-restart", extra_configs(tier), (1, 1, 2))]
+                 ("policies-restart", extra_configs(tier), (1, 1, 2)),
+                 ("stop-at-any-moment", stop_configs(tier), (1, 3, 3))]
     else:
         plans = [("logs-starts-3dev", configs(tier, MENU), (2, 1, 3)),
                  ("logs-starts-4dev-light", configs(tier, MENU_LIGHT)[::3], (2, 2, 4)),
-                 ("policies-restart", extra_configs(tier), (2, 2, 3))]
+                 ("policies-restart", extra_configs(tier), (2, 2, 3)),
+                 ("stop-at-any-moment", stop_configs(tier), (2, 4, 5))]
     if only:
         plans = [p for p in plans if p[0] in only]
     return _dfs.run_plans(PROPERTY, SPEC, plans, seed, RULE, ASSUME, max_steps=400)
